@@ -72,7 +72,9 @@ type printReporter struct{ n int }
 
 func (p *printReporter) Violate(s, what string, replay any) {
 	p.n++
-	fmt.Printf("VIOLATION (replay) signature: %s\n  what: %s\n", s, what)
+	if what != "" {
+		fmt.Printf("VIOLATION (replay) signature: %s\n  what: %s\n", s, what)
+	}
 }
 
 // ---------------------------------------------------------------------------------------------
@@ -145,17 +147,19 @@ type worker struct {
 	hashes   []uint64
 	nontriv  int64
 	verbose  bool
+	mu       sync.Mutex
+	best     map[string]*finding
 }
 
 func newWorker(rep reporter) *worker {
-	w := &worker{rep: rep, slot: &ref.Slot{}}
+	w := &worker{rep: rep, slot: &ref.Slot{}, best: map[string]*finding{}}
 	w.backing = append([]byte(nil), pristine...)
 	w.backing2 = append([]byte(nil), pristine...)
 	w.optsB = make(message.Options, 0, 16)
 	w.optsD = make(message.Options, 0, 64)
 	w.pmEnc = pool.NewMessage(context.Background())
 	w.pmDec = pool.NewMessage(context.Background())
-	w.slot.Begin(func() (string, string, any) {
+	w.slot.Describe(func() (string, string, any) {
 		c := w.cur.clone()
 		return "call-never-returns/" + c.Coder + "-" + w.curStep,
 			fmt.Sprintf("%s did not return within the watchdog period for %s", w.curStep, describeCase(&c)), c
@@ -191,13 +195,78 @@ func (w *worker) build(c *caseDesc) message.Message {
 	return m
 }
 
-func (w *worker) violate(sig, what string, c *caseDesc, bufLen int, wire []byte) {
-	d := c.clone()
-	d.BufLen = bufLen
-	if len(wire) > 0 && len(wire) <= 256 {
-		d.HexWire = hex.EncodeToString(wire)
+// finding is the smallest counterexample of one signature seen by a worker; "smallest" is by
+// (message weight, description), so the reported case does not depend on scheduling.
+type finding struct {
+	count  int64
+	weight int
+	key    string
+	what   string
+	rc     caseDesc
+}
+
+func weight(c *caseDesc) int {
+	w := c.TokLen + c.PayLen + abs(c.Type) + abs(c.MID) + abs(c.Code)
+	for _, o := range c.Opts {
+		w += 1 + o.Len + o.ID
 	}
-	w.rep.Violate(sig, what+" — message: "+describeCase(c), d)
+	return w
+}
+
+func abs(v int) int {
+	if v < 0 {
+		return -v
+	}
+	return v
+}
+
+func (w *worker) violate(sig, what string, c *caseDesc, bufLen int, wire []byte) {
+	w.mu.Lock()
+	defer w.mu.Unlock()
+	f := w.best[sig]
+	if f == nil {
+		f = &finding{}
+		w.best[sig] = f
+	}
+	f.count++
+	wt, key := weight(c), fmt.Sprintf("%s/%d/%s", c.Coder, bufLen, describeCase(c))
+	if f.count == 1 || wt < f.weight || (wt == f.weight && key < f.key) {
+		d := c.clone()
+		d.BufLen = bufLen
+		if len(wire) > 0 && len(wire) <= 256 {
+			d.HexWire = hex.EncodeToString(wire)
+		}
+		f.weight, f.key, f.what, f.rc = wt, key, what+" — message: "+describeCase(c), d
+	}
+}
+
+// flush hands the merged findings to the reporter: the smallest case, then one call per further
+// occurrence so that the occurrence count is right.
+func flush(workers []*worker, rep reporter) {
+	merged := map[string]*finding{}
+	for _, w := range workers {
+		w.mu.Lock()
+		for sig, f := range w.best {
+			m := merged[sig]
+			if m == nil {
+				c := *f
+				merged[sig] = &c
+				continue
+			}
+			m.count += f.count
+			if f.weight < m.weight || (f.weight == m.weight && f.key < m.key) {
+				m.weight, m.key, m.what, m.rc = f.weight, f.key, f.what, f.rc
+			}
+		}
+		w.best = map[string]*finding{}
+		w.mu.Unlock()
+	}
+	for sig, f := range merged {
+		rep.Violate(sig, f.what, f.rc)
+		for i := int64(1); i < f.count; i++ {
+			rep.Violate(sig, "", nil)
+		}
+	}
 }
 
 func (w *worker) step(s string) { w.curStep = s; w.slot.Touch(); w.calls++ }
@@ -519,6 +588,7 @@ func (w *worker) checkRefused(c *caseDesc) {
 
 var optionIDs = []int{1, 4, 6, 11, 12, 13, 14, 15, 23, 60, 258, 268, 269, 270, 2000, 65535}
 var lengthAlphabet = []int{0, 1, 8, 12, 13, 14, 255, 268, 269, 270, 1034, 65804}
+var lengthAlphabetK4 = []int{0, 1, 12, 13, 14, 268, 269, 270, 65804} // lists of 4 options (thorough tier)
 
 // elements returns every (id,len) pair of the alphabet that is registry-legal for ordinary
 // codes, plus the registry maximum of each registered id; ordered by id, then length.
@@ -598,7 +668,9 @@ func main() {
 		var mu sync.Mutex
 		var total int64
 		ev.Parallel(nw, func(sh int) {
+			workers[sh].slot.Resume()
 			n := f(workers[sh], sh)
+			workers[sh].slot.End()
 			mu.Lock()
 			total += n
 			mu.Unlock()
@@ -707,11 +779,16 @@ func main() {
 
 	// ---- grid B: every ascending multiset of <= K options x 2 headers x payload {0,1,2}
 	elFull := elements(lengthAlphabet, true)
+	elK4 := elements(lengthAlphabetK4, false)
 	type hdr struct{ ty, mid, code, tl int }
 	hdrs := []hdr{{0, 0, 1, 0}, {3, 65535, 0x45, 8}}
 	for k := 0; k <= maxK; k++ {
 		el := elFull
 		name := fmt.Sprintf("B lists of %d", k)
+		if k == 4 {
+			el = elK4
+			name += " (class-boundary lengths)"
+		}
 		k := k
 		phase(name, func(w *worker, sh int) int64 {
 			var ord, n int64
@@ -737,6 +814,7 @@ func main() {
 		})
 	}
 	r.Set("option_elements_full", int64(len(elFull)))
+	r.Set("option_elements_lists_of_4", int64(len(elK4)))
 	r.Sample(map[string]any{"grid": "B", "case": "coder=tcp code=69 token=a0..a7 options(id,len)=[(13,268) (269,65804) (65535,14)] payload_len=2"})
 
 	// ---- grid C: stream body length classes (and the same payload lengths on datagrams)
@@ -866,6 +944,7 @@ func main() {
 }
 
 func collect(r *ev.Run, workers []*worker, grids map[string]int64) {
+	flush(workers, r)
 	var evals, calls, refusals int64
 	var all []uint64
 	for _, w := range workers {
@@ -892,7 +971,7 @@ func collect(r *ev.Run, workers []*worker, grids map[string]int64) {
 		}
 		r.Set("grid_sizes", g)
 	}
-	r.Set("rule", "grid (simplest first): A = token length 0..8 (two byte patterns) x all 256 codes x type 0..3 x MID {0,1,255,256,65534,65535} x 3 option lists x payload {0,1}; A2 = every MID 0..65535 x every type x 2 messages; E = full cross of small header values with every single short option; B = every ascending multiset (equal numbers in every value order) of up to 3 (thorough: 4) options over numbers {1,4,6,11,12,13,14,15,23,60,258,268,269,270,2000,65535} with value lengths {0,1,8,12,13,14,255,268,269,270,1034,65804} cut to the registry-legal ones plus each registry min/max x 2 headers x payload {0,1,2}; C = for every single option and 4 longer lists the payload length that makes the stream body 0..14, 267..271, 65803..65807, 70000, 131072, 2^20+1; D = out-of-precondition ring (token 9..256 bytes, type <0 / 4..255 / >255, MID <0 / >65535, code >255, option value >65804 bytes). Every message goes through Size, Encode with every buffer length 0..size-1 when size <= sweep limit (300 quick / 600 thorough; a 14-point ring of lengths above), Encode exact, Decode, (stream) DecodeHeader + DecodeWithHeader, pool MarshalWithEncoder and UnmarshalWithDecoder, on both coders. Non-trivial = a distinct (by 64-bit hash of the message description) in-precondition message with at least one option or a payload, plus every refusal case.")
+	r.Set("rule", "grid (simplest first): A = token length 0..8 (two byte patterns) x all 256 codes x type 0..3 x MID {0,1,255,256,65534,65535} x 3 option lists x payload {0,1}; A2 = every MID 0..65535 x every type x 2 messages; E = full cross of small header values with every single short option; B = every ascending multiset (equal numbers in every value order) of up to 3 (thorough: 4) options over numbers {1,4,6,11,12,13,14,15,23,60,258,268,269,270,2000,65535} with value lengths {0,1,8,12,13,14,255,268,269,270,1034,65804} cut to the registry-legal ones plus each registry min/max (lists of 4: lengths {0,1,12,13,14,268,269,270,65804} cut to the legal ones) x 2 headers x payload {0,1,2}; C = for every single option and 4 longer lists the payload length that makes the stream body 0..14, 267..271, 65803..65807, 70000, 131072, 2^20+1; D = out-of-precondition ring (token 9..256 bytes, type <0 / 4..255 / >255, MID <0 / >65535, code >255, option value >65804 bytes). Every message goes through Size, Encode with every buffer length 0..size-1 when size <= sweep limit (300 quick / 600 thorough; a 14-point ring of lengths above), Encode exact, Decode, (stream) DecodeHeader + DecodeWithHeader, pool MarshalWithEncoder and UnmarshalWithDecoder, on both coders. Non-trivial = a distinct (by 64-bit hash of the message description) in-precondition message with at least one option or a payload, plus every refusal case.")
 	r.Assume(
 		"the size formula and the registry in props/codecref are written from RFC 7252 §3/§5.10, RFC 7641, RFC 7959, RFC 7967 and RFC 8323 §3.2, not from the implementation",
 		"header fields, option lists and payload lengths are treated independently by the codec: grid A crosses all header values with 3 option lists, grids B/C cross all option lists / length classes with 2 headers; grid E is a full cross at the smallest sizes as a spot check of this assumption",
@@ -928,11 +1007,13 @@ func replay(path string) {
 		})
 	})
 	c := f.Replay
+	w.slot.Resume()
 	if c.Kind == "refuse" {
 		w.checkRefused(&c)
 	} else {
 		w.checkValid(&c)
 	}
+	flush([]*worker{w}, rep)
 	if rep.n == 0 {
 		fmt.Println("replay: no violation on this tree")
 		os.Exit(0)
